@@ -39,20 +39,24 @@ StateTable == <<
 Env(h) == [home |-> HomeTable[h], users |-> Users]
 
 VARIABLE ws          \* the word: a sequence of indices into U
-Init == ws = <<>>
-Next == /\ Len(ws) < (IF MaxFull > MaxCore THEN MaxFull ELSE MaxCore)
-        /\ \E k \in 1..NU :
-             /\ (Len(ws) >= MaxFull => k <= NCore /\ \A i \in DOMAIN ws : ws[i] <= NCore)
-             /\ ws' = Append(ws, k)
-Spec == Init /\ [][Next]_ws
-
-Word == [i \in DOMAIN ws |-> U[ws[i]]]
 
 RECURSIVE Hash(_, _)
 Hash(q, i) == IF i > Len(q) THEN 7 ELSE (q[i] * 31 + Hash(q, i + 1) * 17) % 10007
 
-AllCore == \A i \in DOMAIN ws : ws[i] <= NCore
-Selected == Len(ws) <= FullUpTo \/ AllCore \/ Slice <= 1 \/ (Hash(ws, 1) + Seed) % Slice = 0
+AllCoreIn(q) == \A i \in DOMAIN q : q[i] <= NCore
+SelectedWord(q) == Len(q) <= FullUpTo \/ AllCoreIn(q) \/ Slice <= 1 \/ (Hash(q, 1) + Seed) % Slice = 0
+Selected == SelectedWord(ws)
+
+Init == ws = <<>>
+Next == /\ Len(ws) < (IF MaxFull > MaxCore THEN MaxFull ELSE MaxCore)
+        /\ \E k \in 1..NU :
+             /\ (Len(ws) >= MaxFull => k <= NCore /\ AllCoreIn(ws))
+             /\ ws' = Append(ws, k)
+             \* words that are neither printed nor a prefix of a printed word are not generated
+             /\ (Len(ws') < MaxFull \/ SelectedWord(ws'))
+Spec == Init /\ [][Next]_ws
+
+Word == [i \in DOMAIN ws |-> U[ws[i]]]
 
 Outs(w) ==
   LET T == { <<c, h, s>> : c \in DOMAIN CtxSeq, h \in DOMAIN HomeTable, s \in DOMAIN StateTable }
